@@ -475,6 +475,7 @@ def src_of(ins, is_map):
 
 def run(ctx: lib.Ctx) -> None:
     rng = ctx.rng
+    V.install_sorted_check()
     ctx.rule = ('histories of up to 30 (quick) / 300 (thorough) instructions on one set or one map (values int) whose key type is '
                 'int, string, pair, or, option, address, key_hash, bytes, key or a nested combination; keys come from a pool of 3-8 '
                 'values built by single-leaf mutation (equal first pair components, same hash under another address kind, ...); '
@@ -595,3 +596,4 @@ def run(ctx: lib.Ctx) -> None:
                        'model': ctx.coq_eval(IMPORTS, f'{kind}_script_case {cases[idx][0]}')[:3000], 'disagreements': len(corr)}, found=False)
     ctx.extra['histories'] = {'set': len(set_cases), 'map': len(map_cases)}
     ctx.extra['instructions_executed'] = sum(len(m[4]) for m in meta)
+    V.report_sorted_check(ctx)
